@@ -68,4 +68,262 @@ theorem cornerRight_iff (pt : Point) (hpt : OnBoard pt) (ct : CastlingType) :
   unfold cornerRight specOf cornerSq
   cases ct <;> simp only <;> (repeat' split) <;> simp_all <;> omega
 
+/-- the rights of a well-formed position imply the rook on its corner (from `LegalPosition`) -/
+def RightsOK (p : Pos) : Prop :=
+  ∀ ct, p.right ct = true → (abs p).at (cornerSq ct) = some ⟨rightColor ct, .rook⟩
+
+/-- one castling right after an ordinary move: model = specification -/
+theorem right_agree (p : Pos) (hR : RightsOK p) (o : Spec.Sq) (ho : InB o) (pc : Piece)
+    (hsrc : (abs p).at o = some pc) (mov : Point) (hm : OnBoard mov) (ct : CastlingType) :
+    (p.right ct && !(pc.kind == .king && pc.color == rightColor ct) &&
+        !(pc.kind != .king && cornerRight (toPt o) == some ct) && !(cornerRight mov == some ct)) =
+      (p.right ct && !(pc == ⟨rightColor ct, .king⟩) && !(o == cornerSq ct || specOf mov == cornerSq ct)) := by
+  have e1 : (pc == (⟨rightColor ct, .king⟩ : Piece)) = (pc.kind == .king && pc.color == rightColor ct) := by
+    cases pc with | mk c k => cases c <;> cases k <;> cases ct <;> decide
+  have e2 : (cornerRight mov == some ct) = (specOf mov == cornerSq ct) := by
+    rw [Bool.eq_iff_iff]; simp only [beq_iff_eq]; exact cornerRight_iff mov hm ct
+  have e3 : (cornerRight (toPt o) == some ct) = (o == cornerSq ct) := by
+    rw [Bool.eq_iff_iff]; simp only [beq_iff_eq]
+    rw [cornerRight_iff (toPt o) (toPt_onBoard o ho) ct, specOf_toPt o ho]
+  rw [e1, e2, e3]
+  by_cases hk : pc.kind = .king
+  · -- a king leaving a corner: the right for that corner cannot be held (no rook there)
+    by_cases hoc : o = cornerSq ct
+    · have hr : p.right ct = false := by
+        cases hrt : p.right ct with
+        | false => rfl
+        | true =>
+          have := hR ct hrt
+          rw [← hoc, hsrc] at this
+          injection this with this
+          rw [this] at hk; cases hk
+      rw [hr]; simp
+    · have : (o == cornerSq ct) = false := by simpa using hoc
+      rw [this]; simp [hk]
+  · have : (pc.kind == Kind.king) = false := by simpa using hk
+    simp only [this, Bool.false_and, Bool.not_false, Bool.and_true, bne, Bool.not_false, Bool.true_and, Bool.not_or]
+    cases p.right ct <;> cases (o == cornerSq ct) <;> cases (specOf mov == cornerSq ct) <;> rfl
+
+/-! ### en passant target after an ordinary move -/
+
+theorem ep_agree (piece : Piece) (p : Pos) (o : Spec.Sq) (ho : InB o) (mov : Point) (hm : OnBoard mov) (nb : Pos)
+    (hrule : normalRule (abs p) o piece (specOf mov) = true) :
+    (st3 h piece (toPt o) mov nb).ep.map specOf = epAfter piece.color piece ⟨o, specOf mov, none⟩ := by
+  unfold st3 epAfter
+  unfold InB at ho
+  unfold OnBoard at hm
+  have hrow : (((toPt o).row : Int) - mov.row).natAbs = 2 ↔ Spec.iabs (((specOf mov).rank : Int) - o.rank) = 2 := by
+    unfold toPt specOf Spec.iabs; simp only; omega
+  by_cases hc : piece.kind = .pawn ∧ (((toPt o).row : Int) - mov.row).natAbs = 2
+  · rw [if_pos hc]
+    have hc' : (piece.kind == .pawn && Spec.iabs (((specOf mov).rank : Int) - o.rank) == 2) = true := by
+      simp [hc.1, hrow.mp hc.2]
+    simp only at hc' ⊢
+    rw [if_pos hc']
+    -- a pawn that moved two ranks stayed on its file
+    obtain ⟨c, k⟩ := piece
+    simp only at hc
+    obtain ⟨hk, h2⟩ := hc
+    subst hk
+    unfold normalRule at hrule
+    simp only [Bool.and_eq_true] at hrule
+    obtain ⟨_, hr⟩ := hrule
+    have h2' := hrow.mp h2
+    unfold Spec.iabs at h2'
+    by_cases hf : o.file = (specOf mov).file
+    · have hif : (o.file == (specOf mov).file) = true := by simp [hf]
+      rw [if_pos hif] at hr
+      simp only [Bool.and_eq_true, Bool.or_eq_true] at hr
+      have hdir : ((specOf mov).rank : Int) - o.rank = Spec.fwd c ∨ ((specOf mov).rank : Int) - o.rank = 2 * Spec.fwd c := by
+        rcases hr.2 with h' | h'
+        · exact Or.inl (of_decide_eq_true h')
+        · exact Or.inr (of_decide_eq_true h'.1.1)
+      cases c <;> simp only [Option.map_some, Spec.fwd] at hdir ⊢ <;> unfold specOf toPt at * <;> simp only at * <;>
+        (congr 1; congr 1 <;> omega)
+    · exfalso
+      have hif : ¬ (o.file == (specOf mov).file) = true := by simp [hf]
+      rw [if_neg hif] at hr
+      unfold Spec.attacksFrom at hr
+      simp only [Bool.and_eq_true, decide_eq_true_eq] at hr
+      have := hr.1.1
+      cases c <;> simp only [Spec.fwd] at this <;> omega
+  · rw [if_neg hc]
+    have hc' : ¬ (piece.kind == .pawn && Spec.iabs (((specOf mov).rank : Int) - o.rank) == 2) = true := by
+      intro hx
+      simp only [Bool.and_eq_true, beq_iff_eq] at hx
+      exact hc ⟨hx.1, hrow.mpr hx.2⟩
+    simp only at hc' ⊢
+    rw [if_neg hc']
+    simp
+
+/-! ### an ordinary move is neither castling nor en passant for the specification -/
+
+theorem not_castle (P : Spec.Position) (o t : Spec.Sq) (pc : Piece) (pr : Option Kind) (hsrc : P.at o = some pc)
+    (hrule : normalRule P o pc t = true) : Spec.isCastle P ⟨o, t, pr⟩ = false := by
+  unfold Spec.isCastle
+  simp only [hsrc]
+  by_cases hk : pc = ⟨P.side, .king⟩
+  · subst hk
+    unfold normalRule Spec.attacksFrom Spec.iabs at hrule
+    simp only [Bool.and_eq_true, beq_iff_eq] at hrule
+    have hmax := hrule.2
+    by_cases ho : o = ⟨4, Spec.homeRank P.side⟩
+    · subst ho
+      simp only at hmax
+      have : ¬ (t.file = 6 ∨ t.file = 2) := by omega
+      simp only [Bool.and_eq_false_iff, Bool.or_eq_false_iff, beq_eq_false_iff_ne, ne_eq]
+      right
+      exact ⟨fun h => this (Or.inl h), fun h => this (Or.inr h)⟩
+    · have : (o == (⟨4, Spec.homeRank P.side⟩ : Spec.Sq)) = false := by simpa using ho
+      simp [this]
+  · have : (some pc == some (⟨P.side, .king⟩ : Piece)) = false := by simpa using hk
+    simp [this]
+
+theorem not_ep (P : Spec.Position) (o t : Spec.Sq) (pc : Piece) (pr : Option Kind) (hsrc : P.at o = some pc)
+    (hrule : normalRule P o pc t = true) : Spec.isEnPassant P ⟨o, t, pr⟩ = false := by
+  unfold Spec.isEnPassant
+  simp only [hsrc]
+  by_cases hk : pc = ⟨P.side, .pawn⟩
+  · subst hk
+    unfold normalRule at hrule
+    simp only [Bool.and_eq_true] at hrule
+    by_cases hf : o.file = t.file
+    · have : (o.file != t.file) = false := by simp [hf]
+      simp [this]
+    · have hif : ¬ (o.file == t.file) = true := by simp [hf]
+      rw [if_neg hif] at hrule
+      simp only [Bool.and_eq_true] at hrule
+      have hs := hrule.2.2
+      have : (P.at t).isNone = false := by
+        cases hq : P.at t with
+        | none => rw [hq] at hs; cases hs
+        | some x => rfl
+      simp [this]
+  · have : (some pc == some (⟨P.side, .pawn⟩ : Piece)) = false := by simpa using hk
+    simp [this]
+
+/-! ### stage facts about rights -/
+
+theorem st1_right (piece : Piece) (p : Pos) (sq mov : Point) (ct : CastlingType) :
+    (st1 h piece p sq mov).right ct = p.right ct := by
+  unfold st1
+  cases ct <;> simp only [Pos.right] <;> (repeat' split) <;> simp
+
+theorem st3_right (piece : Piece) (sq mov : Point) (nb : Pos) (ct : CastlingType) :
+    (st3 h piece sq mov nb).right ct = nb.right ct := by
+  unfold st3
+  cases ct <;> simp only [Pos.right] <;> split <;> simp
+
+theorem abs_right (p : Pos) :
+    (abs p).wks = p.right .wks ∧ (abs p).wqs = p.right .wqs ∧ (abs p).bks = p.right .bks ∧ (abs p).bqs = p.right .bqs :=
+  ⟨rfl, rfl, rfl, rfl⟩
+
+/-! ### C02, ordinary moves -/
+
+/-- the board after stages 1–3 (no promotion) is `Spec.apply` of the move -/
+theorem normal_succ_abs (p : Pos) (hR : RightsOK p) (o : Spec.Sq) (ho : InB o) (pc : Piece)
+    (hpc : p.board.get (toPt o).row (toPt o).col = .full pc) (hcol : pc.color = p.toMove) (mov : Point) (hm : OnBoard mov)
+    (hrule : normalRule (abs p) o pc (specOf mov) = true) :
+    abs (st3 h pc (toPt o) mov (st2 h pc (toPt o) mov (st1 h pc p (toPt o) mov))) =
+      Spec.apply (abs p) ⟨o, specOf mov, none⟩ := by
+  have hsrc : (abs p).at o = some pc := by rw [abs_at p o ho, hpc]; rfl
+  rw [apply_normal (abs p) ⟨o, specOf mov, none⟩ pc hsrc (not_castle _ _ _ _ _ hsrc hrule) (not_ep _ _ _ _ _ hsrc hrule)]
+  have hto := toPt_onBoard o ho
+  have hrt : ∀ ct, (st3 h pc (toPt o) mov (st2 h pc (toPt o) mov (st1 h pc p (toPt o) mov))).right ct =
+      (p.right ct && !(pc == ⟨rightColor ct, .king⟩) && !(o == cornerSq ct || specOf mov == cornerSq ct)) := by
+    intro ct
+    rw [st3_right, st2_right, st1_right, right_agree p hR o ho pc hsrc mov hm ct]
+  apply pos_ext
+  · rw [abs_cells, st3_board, st2_board, st1_cells h pc p (toPt o) mov hpc hto hm, specOf_toPt o ho]
+    rfl
+  · show (st3 h pc (toPt o) mov (st2 h pc (toPt o) mov (st1 h pc p (toPt o) mov))).toMove = p.toMove.opp
+    rw [st3_toMove, st2_toMove, st1_toMove]
+  · exact hrt .wks
+  · exact hrt .wqs
+  · exact hrt .bks
+  · exact hrt .bqs
+  · show (st3 h pc (toPt o) mov (st2 h pc (toPt o) mov (st1 h pc p (toPt o) mov))).ep.map specOf = _
+    rw [ep_agree h pc p o ho mov hm _ hrule, hcol]
+    rfl
+
+/-! ### C02, promotions -/
+
+/-- the move a successor carries in its descriptor fields -/
+def moveOf (q : Pos) : Spec.Move :=
+  match q.lastMove with
+  | some (a, b) => ⟨specOf a, specOf b, q.promo.map (·.kind)⟩
+  | none => ⟨⟨0, 0⟩, ⟨0, 0⟩, none⟩
+
+theorem epAfter_none_of_last (P : Spec.Position) (o t : Spec.Sq) (c : Color) (pr : Option Kind)
+    (hrule : normalRule P o ⟨c, .pawn⟩ t = true) (hlast : t.rank = Spec.lastRank c) :
+    epAfter c ⟨c, .pawn⟩ ⟨o, t, pr⟩ = none := by
+  unfold epAfter
+  have : ¬ (Spec.iabs ((t.rank : Int) - o.rank) = 2) := by
+    unfold normalRule at hrule
+    simp only [Bool.and_eq_true] at hrule
+    obtain ⟨_, hr⟩ := hrule
+    unfold Spec.iabs
+    by_cases hf : o.file = t.file
+    · have hif : (o.file == t.file) = true := by simp [hf]
+      rw [if_pos hif] at hr
+      simp only [Bool.and_eq_true, Bool.or_eq_true] at hr
+      rcases hr.2 with h' | h'
+      · have := of_decide_eq_true h'
+        cases c <;> simp only [Spec.fwd] at this <;> omega
+      · have h1 := of_decide_eq_true h'.1.1
+        have h2 : o.rank = Spec.pawnStartRank c := by simpa using h'.1.2
+        cases c <;> simp only [Spec.fwd, Spec.pawnStartRank, Spec.lastRank] at * <;> omega
+    · have hif : ¬ (o.file == t.file) = true := by simp [hf]
+      rw [if_neg hif] at hr
+      unfold Spec.attacksFrom at hr
+      simp only [Bool.and_eq_true, decide_eq_true_eq] at hr
+      have := hr.1.1
+      cases c <;> simp only [Spec.fwd] at this <;> omega
+  simp [this]
+
+theorem promo_succ_abs (p : Pos) (hR : RightsOK p) (o : Spec.Sq) (ho : InB o) (c : Color)
+    (hpc : p.board.get (toPt o).row (toPt o).col = .full ⟨c, .pawn⟩) (hcol : c = p.toMove) (mov : Point) (hm : OnBoard mov)
+    (hrule : normalRule (abs p) o ⟨c, .pawn⟩ (specOf mov) = true) (hlast : (specOf mov).rank = Spec.lastRank c)
+    (s : Pos)
+    (hs : s ∈ promotePawn h (st3 h ⟨c, .pawn⟩ (toPt o) mov (st2 h ⟨c, .pawn⟩ (toPt o) mov (st1 h ⟨c, .pawn⟩ p (toPt o) mov)))
+      c (toPt o) mov) :
+    ∃ kind ∈ Gen.promotionOrder, s.promo = some ⟨c, kind⟩ ∧ s.lastMove = some (toPt o, mov) ∧
+      abs s = Spec.apply (abs p) ⟨o, specOf mov, some kind⟩ := by
+  unfold promotePawn at hs
+  obtain ⟨kind, hkind, rfl⟩ := List.mem_map.mp hs
+  refine ⟨kind, hkind, rfl, rfl, ?_⟩
+  have hn := normal_succ_abs h p hR o ho ⟨c, .pawn⟩ hpc hcol mov hm hrule
+  have hsrc : (abs p).at o = some ⟨c, .pawn⟩ := by rw [abs_at p o ho, hpc]; rfl
+  rw [apply_normal (abs p) ⟨o, specOf mov, none⟩ _ hsrc (not_castle _ _ _ _ _ hsrc hrule) (not_ep _ _ _ _ _ hsrc hrule)] at hn
+  rw [apply_normal (abs p) ⟨o, specOf mov, some kind⟩ _ hsrc (not_castle _ _ _ _ _ hsrc hrule) (not_ep _ _ _ _ _ hsrc hrule)]
+  generalize hnb : st3 h ⟨c, .pawn⟩ (toPt o) mov (st2 h ⟨c, .pawn⟩ (toPt o) mov (st1 h ⟨c, .pawn⟩ p (toPt o) mov)) = nb at hn
+  have hside : (abs p).side = c := hcol.symm
+  have hin := specOf_inB mov hm
+  have hino : InB o := ho
+  apply pos_ext
+  · -- cells: the pawn that has just arrived is overwritten by the promoted piece
+    show absCells ((nb.unsetEp h).board.set mov.row mov.col (.full ⟨c, kind⟩)) = _
+    rw [unsetEp_board, absCells_set _ mov _ hm]
+    have hc := congrArg Spec.Position.cells hn
+    rw [abs_cells] at hc
+    rw [hc]
+    show (((abs p).put o none).put (specOf mov) (some (landed (abs p).side ⟨c, .pawn⟩ none))).cells.setIfInBounds
+        (sqIdx (specOf mov)) (squareToOpt (.full ⟨c, kind⟩)) =
+      (((abs p).put o none).put (specOf mov) (some (landed (abs p).side ⟨c, .pawn⟩ (some kind)))).cells
+    rw [put_cells _ _ _ hin, put_cells _ _ _ hin, Array.setIfInBounds_setIfInBounds]
+    simp only [landed, squareToOpt, hside]
+  · show (nb.unsetEp h).toMove = _
+    rw [unsetEp_toMove]; exact congrArg Spec.Position.side hn
+  · show (nb.unsetEp h).wks = _
+    rw [unsetEp_wks]; exact congrArg Spec.Position.wks hn
+  · show (nb.unsetEp h).wqs = _
+    rw [unsetEp_wqs]; exact congrArg Spec.Position.wqs hn
+  · show (nb.unsetEp h).bks = _
+    rw [unsetEp_bks]; exact congrArg Spec.Position.bks hn
+  · show (nb.unsetEp h).bqs = _
+    rw [unsetEp_bqs]; exact congrArg Spec.Position.bqs hn
+  · show ((nb.unsetEp h).ep).map specOf = epAfter (abs p).side ⟨c, .pawn⟩ ⟨o, specOf mov, some kind⟩
+    rw [unsetEp_ep, hside, epAfter_none_of_last (abs p) o (specOf mov) c (some kind) hrule hlast]
+    rfl
+
 end Walleye
